@@ -601,7 +601,8 @@ func classify(pers simfs.Personality, p string) string {
 	switch fc[2] {
 	case "refs", "logs":
 		return fc[2]
-	case "packed-refs":
+	case "packed-refs", "packed-refs.lock":
+		// (packed-refs.lock: the lock file of packed-refs under git's lock-file protocol)
 		if len(comps) == 3 {
 			return "packed-refs"
 		}
